@@ -144,7 +144,7 @@ Inv_SecrecyProjection ==
 
 \* malformed sets built from the tuple: too few; one index duplicated; all value vectors over BadVals
 Inv_BadSetsRejected ==
-    (TL >= 1 /\ TL <= TFull) =>
+    (TL >= 1 /\ TL <= TFull /\ TL <= 3) =>     \* (all value vectors: 8^TL x pairs; kept to t <= 3)
       \A ys \in [1 .. TL -> BadVals] :
          LET sh(xs) == [i \in 1 .. Len(xs) |-> [index |-> xs[i], value |-> <<ys[i]>>]]
          IN /\ CodeCombine(sh(tup), TL + 1) = Invalid /\ Reconstruct(sh(tup), TL + 1) = Invalid
